@@ -230,6 +230,12 @@ func init() {
 			a.InsertIntegerAfter(0, v)
 		}
 	})
+	// behind the second element (behind what an a.ins0 of the same client just inserted)
+	reg("a.ins1", func(r *json.Object, _ *document.Presence, v int) {
+		if a := arr(r); a != nil && a.Len() > 1 {
+			a.InsertIntegerAfter(1, v)
+		}
+	})
 	reg("a.insL", func(r *json.Object, _ *document.Presence, v int) {
 		if a := arr(r); a != nil && a.Len() > 0 {
 			a.InsertIntegerAfter(a.Len()-1, v)
@@ -318,6 +324,13 @@ func init() {
 
 	// ---------------------------------------------------------------- text
 	tlen := func(t *json.Text) int { return u16len(t.String()) }
+	// one position behind the middle (behind what a t.insM of the same client just inserted)
+	reg("t.insM1", func(r *json.Object, _ *document.Presence, v int) {
+		if t := txt(r); t != nil && tlen(t) > 0 {
+			i := min(tlen(t)/2+1, tlen(t))
+			t.Edit(i, i, letter(v))
+		}
+	})
 	reg("t.ins0", func(r *json.Object, _ *document.Presence, v int) {
 		if t := txt(r); t != nil {
 			t.Edit(0, 0, letter(v))
